@@ -350,13 +350,12 @@ Record CarrySpec (f : fsys) (p : path) (a : caddr) (force : bool) (f' : fsys) (o
             exists i' n', oget f' a = Some (EFile i') /\ iget f' i' = Some n' /\ i_bytes n' = i_bytes n;
   cs_present : oc <> Panic -> oget f' a <> None;
   cs_dro : oc <> Panic -> DRO f -> DRO f';
-  cs_new : forall j, oget f' a = Some (EFile j) -> oget f a = Some (EFile j) \/ wget f p = Some (EFile j);
   cs_ni : (next_ino f <= next_ino f')%N
 }.
 
 Arguments cs_FI {f p a force f' oc}. Arguments cs_ws {f p a force f' oc}. Arguments cs_bytes {f p a force f' oc}.
 Arguments cs_objs {f p a force f' oc}. Arguments cs_mono {f p a force f' oc}. Arguments cs_keep {f p a force f' oc}.
-Arguments cs_present {f p a force f' oc}. Arguments cs_dro {f p a force f' oc}. Arguments cs_new {f p a force f' oc}.
+Arguments cs_present {f p a force f' oc}. Arguments cs_dro {f p a force f' oc}.
 Arguments cs_ni {f p a force f' oc}.
 
 Lemma commit_part_spec f p a force :
@@ -366,7 +365,7 @@ Lemma commit_part_spec f p a force :
 Proof.
   intros F G Hfit. destruct (commit_part_cases f p a force F G) as [Hoa Hk | g j n Hw Hj Hgj Hs P | g Hw P].
   - (* kept *) cbn [fst snd].
-    split; [exact F|auto|apply R_bytes_refl|auto|auto| |auto|auto|auto|lia].
+    split; [exact F|auto|apply R_bytes_refl|auto|auto| |auto|auto|lia].
     intros _ i n Ho Hi. right; eauto.
   - (* moved *) cbn [fst snd].
     destruct (pre_state_facts _ _ _ _ F P) as (Fg & Wg & Og & Bg & Ig & Dg & Ng).
@@ -393,7 +392,6 @@ Proof.
     + intros _ D b Hb. fsrw. destruct (digest_eqb_spec (a_digest a) (a_digest b)) as [E|Hne]; auto.
       rewrite Dg by congruence. apply D. rewrite Og in Hb.
       destruct (caddr_eqb_spec a b) as [E'|]; [congruence|auto].
-    + intros j0. fsrw. rewrite caddr_eqb_refl. intros [= <-]. auto.
     + fsrw. lia.
   - (* failed *) cbn [fst snd].
     destruct (pre_state_facts _ _ _ _ F P) as (Fg & Wg & Og & Bg & Ig & Dg & Ng).
@@ -404,7 +402,6 @@ Proof.
     + intros b Hb. fsrw. rewrite Og. destruct (caddr_eqb_spec a b); [congruence|auto].
     + intros -> e He. destruct P as [[Hn _]|[Hx _]]; congruence.
     + intros _ i ni Ho Hi. left. fsrw. rewrite Og. now rewrite caddr_eqb_refl.
-    + intros j0. fsrw. rewrite Og. rewrite caddr_eqb_refl. discriminate.
     + fsrw. lia.
 Qed.
 
@@ -470,7 +467,7 @@ Proof.
   intros F G Hfit. pose proof (commit_part_spec f p a force F G Hfit) as S.
   rewrite carry_one_eq. destruct (commit_part f p a force) as [f1 o1]. cbn [fst snd] in S.
   destruct o1; [|exact S|exact S].
-  destruct S as [S1 S2 S3 S4 S5 S6 S7 S8 S9 S10].
+  destruct S as [S1 S2 S3 S4 S5 S6 S7 S8 S10].
   destruct (rfc_spec (cleared f1 p) p a m (FI_cleared _ _ S1)) as (R1 & R2 & R3 & R4 & R5 & R6).
   destruct (recheck_from_cache (cleared f1 p) p a m) as [f2 o2]. cbn [fst snd] in *.
   assert (O2 : forall b, oget f2 b = oget f1 b) by (intros; rewrite R3; now fsrw).
@@ -485,7 +482,6 @@ Proof.
     right. exists i', n'. rewrite O2. auto.
   - intros _. now rewrite O2.
   - intros _ D b Hb. rewrite O2 in Hb. rewrite R5. fsrw. apply S8; auto. discriminate.
-  - intros j. rewrite O2. auto.
   - fsrw. lia.
 Qed.
 
